@@ -181,6 +181,8 @@ class Check:
                 final_viol.append(v)
                 continue
             key = v["unit"]
+            if "/shape[" in v["oid"]:
+                key = v["oid"].split("/shape[")[0]  # forwarding units: one replay per method
             if key in seen_units:
                 # one replay per unit; further failing obligations of the same unit share it
                 v["replay"], v["concrete"] = seen_units[key]
